@@ -20,7 +20,10 @@ func init() {
 	})
 }
 
-func c19(c *Ctx) { c19p(c, "") }
+func c19(c *Ctx) {
+	c19p(c, "")
+	sLockDiscipline(c, "R6/S-LOCK", "LogCache")
+}
 
 // c19p runs the LogCache rules under a rule-name prefix (shared into C04:
 // the follower's previous-entry check and conflict scan read through the cache).
